@@ -65,6 +65,10 @@ def templates(tier):
     add('in', 'f1 ( ) in [ f2 ( ) , f3 ( ) ]', F(3))
     add('deep', 'h ( f1 ( ) + f2 ( ) , [ f3 ( ) , b ? f4 ( ) : f5 ( ) ] , { f6 ( ) : g1 } )', dict(F(6), h=num, g1=num), {'b': boo}, n=8)
     add('same-fn-twice', 'f1 ( ) + f1 ( ) * f1 ( )', F(1), n=3)
+    add('same-bare-twice', 'g1 + g1 * g1', {'g1': num}, n=3)
+    add('same-bare-chain', 'g1 ; g1 ; g1 ( )', {'g1': num}, n=3)
+    add('same-bare-cond', 'g1 ? g1 : g1', {'g1': boo}, n=2)
+    add('same-bare-list', '[ g1 , g1 ] ; x = g1 ; g1', {'g1': num}, n=4)
     add('type-error-mid', 'f1 ( ) + s + f2 ( )', F(2), {'s': sp(['str', 'num'], (0,), strshapes=[(1,)])})
     add('unknown-fn', 'f1 ( ) + nosuch ( f2 ( ) ) + f3 ( )', F(3))
     if tier == 'thorough':
